@@ -53,7 +53,7 @@ def green_builder_design_check(ctx):
     refuted = {}
     for cfg, inv in (("GreenBuilder_neg1", "NeedsNoEarlyReturn"), ("GreenBuilder_neg2", "NeedsNoCrossing"),
                      ("GreenBuilder_neg3", "NeedsWellFormed")):
-        r = vlib.tlc("GreenBuilder", cfg, workers=2, timeout=600)
+        r = vlib.tlc("GreenBuilder", cfg, workers=1, timeout=600)
         ctx.add_tlc(r)
         if r.violated != inv:
             raise vlib.ToolError("GreenBuilder self-check: %s should be refuted by TLC (precondition is needed), "
